@@ -331,6 +331,10 @@ def to_vtl_json(
     _components.extend(structure.components.attributes)
 
     for c in _components:
+        if c.dtype not in VTL_DTYPES_MAPPING:
+            raise InputValidationException(
+                f"Component '{c.id}': SDMX data type '{c.dtype}' has no VTL equivalent."
+            )
         _type = VTL_DTYPES_MAPPING[c.dtype]
         _nullability = c.role != SDMX_Role.DIMENSION
         _role = VTL_ROLE_MAPPING[c.role]
